@@ -580,3 +580,17 @@ Proof.
   unfold defines in Hdef. destruct (def_in f n (s_devices (lf_spec f))) as [d|]; [|discriminate].
   exists d. split; reflexivity.
 Qed.
+
+(* ---------- histories (manual refresh): directory changes and refreshes in any order ---------- *)
+Inductive cop := OChange (fs : fsview) | ORefresh.
+Definition cstep (st : fsview * cache) (o : cop) : fsview * cache :=
+  match o with OChange fs' => (fs', snd st) | ORefresh => (fst st, refresh (fst st)) end.
+(* whatever happened before, after a refresh the cache is the refresh of the CURRENT directory contents: every query then
+   answers by the precedence rule on what is there now *)
+Theorem history_then_refresh ops st :
+  let st' := fold_left cstep (ops ++ [ORefresh]) st in snd st' = refresh (fst st').
+Proof. cbn zeta. rewrite fold_left_app. cbn [fold_left cstep fst snd]. reflexivity. Qed.
+Theorem history_resolves ops st n :
+  let st' := fold_left cstep (ops ++ [ORefresh]) st in
+  unique_names (scan (fst st')) -> get_device (snd st') n = resolve_spec (loaded (scan (fst st'))) n.
+Proof. cbn zeta. intro U. rewrite history_then_refresh. apply refresh_resolves_fs. exact U. Qed.
